@@ -316,8 +316,61 @@ def rule_guard(c: Ctx) -> RuleResult:
               "the paren depth is compared with its cap inside the scan loop, which stops there" if ok else
               "the paren depth is not checked against its cap inside the scan loop: an unterminated destination is scanned to the end of "
               "the paragraph for every link opener (quadratic on '[a](b' repeated)")
+    _opener_exit(c, r)
     r.floor = 12
     return r
+
+
+def _opener_exit(c: Ctx, r: RuleResult) -> None:
+    """G6: an inline rule that starts at an opening character and scans forward for the closing one without a memo gives up
+    at the next opening character (a run of unmatched openers is otherwise rescanned to the end of the text once per opener).
+    Instance: autolink, `<` ... `>`."""
+    f = c.p.func("rules_inline/autolink.py:autolink")
+    r.functions += 1
+    # the opening character: the constant the character at state.pos is compared with on the way in
+    opener = None
+    for n in own_nodes(f.node):
+        if isinstance(n, ast.If) and isinstance(n.test, ast.Compare) and len(n.test.ops) == 1 and isinstance(n.test.ops[0], ast.NotEq) \
+                and isinstance(n.test.comparators[0], ast.Constant) and isinstance(n.test.comparators[0].value, str) \
+                and len(n.test.comparators[0].value) == 1 and any(isinstance(x, ast.Return) for x in n.body):
+            opener = n.test.comparators[0].value
+            break
+    if opener is None:
+        raise AnchorError("autolink: entry test on the opening character not found")
+    closer = {"<": ">", "[": "]", "(": ")"}.get(opener)
+    loops = [n for n in own_nodes(f.node) if isinstance(n, (ast.While, ast.For))]
+
+    def char_tests(loop: ast.AST, ch: str, ops) -> list[ast.AST]:
+        out = []
+        for x in ast.walk(loop):
+            if isinstance(x, ast.Compare) and len(x.ops) == 1 and isinstance(x.ops[0], ops):
+                for a, b in ((x.left, x.comparators[0]), (x.comparators[0], x.left)):
+                    if isinstance(b, ast.Constant) and b.value == ch:
+                        out.append(x)
+        return out
+    scan = [L for L in loops if char_tests(L, closer, (ast.Eq, ast.NotEq))] if closer else []
+    if not scan:
+        # no character loop: a library search (str.find / index / regex) for the closer scans just as far, with no early exit
+        uses_find = any(isinstance(x, ast.Call) and isinstance(x.func, ast.Attribute) and x.func.attr in ("find", "index") and x.args
+                        and isinstance(x.args[0], ast.Constant) and x.args[0].value == closer for x in own_nodes(f.node))
+        r.add(f"{f.short}|opener-exit", c.where(f, f.node), f.short, "scan for the closing character", "violation",
+              (f"the closing `{closer}` is searched with str.find / index, which runs to the end of the text for every unmatched `{opener}`"
+               if uses_find else f"no loop scanning for the closing `{closer}` found") +
+              f": n unmatched `{opener}` cost n scans (quadratic)")
+        return
+    for L in scan:
+        ok = False
+        # (a) an `if ch == opener: return / break` inside the loop, (b) the loop runs only while the character differs from the opener
+        for t in ast.walk(L):
+            if isinstance(t, ast.If) and any(any(x is cmp_ for x in ast.walk(t.test)) for cmp_ in char_tests(L, opener, (ast.Eq,))) \
+                    and any(isinstance(x, (ast.Return, ast.Break)) for s_ in t.body for x in ast.walk(s_)):
+                ok = True
+        if isinstance(L, ast.While) and any(any(x is cmp_ for x in ast.walk(L.test)) for cmp_ in char_tests(L, opener, (ast.NotEq,))):
+            ok = True
+        r.add(f"{f.short}|opener-exit", c.where(f, L), f.short, U(L).split("\n")[0][:70], "discharged" if ok else "violation",
+              f"the scan for `{closer}` gives up at the next `{opener}`" if ok else
+              f"the scan for `{closer}` does not stop at the next `{opener}`: every unmatched `{opener}` scans on to the next `{closer}` or the end of "
+              f"the text (quadratic on a run of `{opener}`)")
 
 
 # ------------------------------------------------------------------------------------------------ SCAN
